@@ -14,6 +14,24 @@ pub enum Ctx {
     B2(Blake2s, usize), B2K(KeyedBlake2s, usize), B2_256(Blake2s256),
 }
 
+// Hash inputs are handed to the library at every alignment: the data is copied behind a 0..15-byte prefix (derived from the
+// data itself, so that replays are deterministic) and the library sees the slice that starts after the prefix.
+pub struct Shifted { v: Vec<u8>, off: usize }
+impl std::ops::Deref for Shifted {
+    type Target = [u8];
+    fn deref(&self) -> &[u8] { &self.v[self.off..] }
+}
+impl AsRef<[u8]> for Shifted {
+    fn as_ref(&self) -> &[u8] { &self.v[self.off..] }
+}
+pub fn ubytes(s: &str) -> Result<Shifted, String> {
+    let b = bytes(s)?;
+    let off = (b.len() * 7 + (b.len() >> 4)) % 16;
+    let mut v = vec![0u8; off];
+    v.extend_from_slice(&b);
+    Ok(Shifted { v, off })
+}
+
 #[derive(Default)]
 pub struct HashRegs {
     pub m: HashMap<String, Ctx>,
@@ -22,8 +40,8 @@ pub struct HashRegs {
 macro_rules! fixed {
     ($c:expr, $op:expr, $a:expr, $self_clone:expr) => {{
         match $op {
-            "update" => { let b = bytes(arg($a, 1)?)?; $c.update(&b); Ok("-".into()) }
-            "update_rep" => { let b = bytes(arg($a, 1)?)?; let n = usizea(arg($a, 2)?)?; for _ in 0..n { $c.update(&b); } Ok("-".into()) }
+            "update" => { let b = ubytes(arg($a, 1)?)?; $c.update(&b); Ok("-".into()) }
+            "update_rep" => { let b = ubytes(arg($a, 1)?)?; let n = usizea(arg($a, 2)?)?; for _ in 0..n { $c.update(&b); } Ok("-".into()) }
             "finalize" => Ok(ohex(&$c.finalize())),
             "finalize_reset" => Ok(ohex(&$c.finalize_reset())),
             "digest" => Ok(ohex(&$c.digest())),
@@ -38,9 +56,9 @@ macro_rules! fixed {
 macro_rules! shake {
     ($c:expr, $op:expr, $a:expr) => {{
         match $op {
-            "update" => { let b = bytes(arg($a, 1)?)?; $c.update(&b); Ok("-".into()) }
-            "inject" => { let b = bytes(arg($a, 1)?)?; $c.inject(&b); Ok("-".into()) }
-            "update_rep" => { let b = bytes(arg($a, 1)?)?; let n = usizea(arg($a, 2)?)?; for _ in 0..n { $c.inject(&b); } Ok("-".into()) }
+            "update" => { let b = ubytes(arg($a, 1)?)?; $c.update(&b); Ok("-".into()) }
+            "inject" => { let b = ubytes(arg($a, 1)?)?; $c.inject(&b); Ok("-".into()) }
+            "update_rep" => { let b = ubytes(arg($a, 1)?)?; let n = usizea(arg($a, 2)?)?; for _ in 0..n { $c.inject(&b); } Ok("-".into()) }
             "flip" => { $c.flip(); Ok("-".into()) }
             "extract" => { let n = usizea(arg($a, 1)?)?; let mut o = vec![0u8; n]; $c.extract(&mut o); Ok(ohex(&o)) }
             "flip_extract" => { let n = usizea(arg($a, 1)?)?; let mut o = vec![0u8; n]; $c.flip_extract(&mut o); Ok(ohex(&o)) }
@@ -98,7 +116,7 @@ pub fn dispatch(op: &str, a: &[&str], r: &mut HashRegs) -> R {
         "hash" => {
             // one-call forms
             let kind = arg(a, 0)?;
-            let b = bytes(arg(a, 1)?)?;
+            let b = ubytes(arg(a, 1)?)?;
             match kind {
                 "sha224" => Ok(ohex(&Sha224::hash(&b))), "sha256" => Ok(ohex(&Sha256::hash(&b))),
                 "sha384" => Ok(ohex(&Sha384::hash(&b))), "sha512" => Ok(ohex(&Sha512::hash(&b))),
@@ -133,24 +151,24 @@ pub fn dispatch(op: &str, a: &[&str], r: &mut HashRegs) -> R {
                 Ctx::K384(c) => fixed!(c, op, a, 0), Ctx::K512(c) => fixed!(c, op, a, 0),
                 Ctx::X128(c) => shake!(c, op, a), Ctx::X256(c) => shake!(c, op, a),
                 Ctx::B2(c, n) => match op {
-                    "update" => { let b = bytes(arg(a, 1)?)?; c.update(&b); Ok("-".into()) }
-                    "update_rep" => { let b = bytes(arg(a, 1)?)?; let n = usizea(arg(a, 2)?)?; for _ in 0..n { c.update(&b); } Ok("-".into()) }
+                    "update" => { let b = ubytes(arg(a, 1)?)?; c.update(&b); Ok("-".into()) }
+                    "update_rep" => { let b = ubytes(arg(a, 1)?)?; let n = usizea(arg(a, 2)?)?; for _ in 0..n { c.update(&b); } Ok("-".into()) }
                     "reset" => { c.reset(); Ok("-".into()) }
                     "finalize_write" => { let mut o = [0u8; 40]; let k = c.finalize_write(&mut o); Ok(format!("{} {}", ohex(&o[..k]), *n)) }
                     "finalize_reset_write" => { let mut o = [0u8; 40]; let k = c.finalize_reset_write(&mut o); Ok(format!("{} {}", ohex(&o[..k]), *n)) }
                     _ => Err("bad blake2s op".into()),
                 },
                 Ctx::B2K(c, n) => match op {
-                    "update" => { let b = bytes(arg(a, 1)?)?; c.update(&b); Ok("-".into()) }
-                    "update_rep" => { let b = bytes(arg(a, 1)?)?; let n = usizea(arg(a, 2)?)?; for _ in 0..n { c.update(&b); } Ok("-".into()) }
+                    "update" => { let b = ubytes(arg(a, 1)?)?; c.update(&b); Ok("-".into()) }
+                    "update_rep" => { let b = ubytes(arg(a, 1)?)?; let n = usizea(arg(a, 2)?)?; for _ in 0..n { c.update(&b); } Ok("-".into()) }
                     "reset" => { c.reset(); Ok("-".into()) }
                     "finalize_write" => { let mut o = [0u8; 40]; let k = c.finalize_write(&mut o); Ok(format!("{} {}", ohex(&o[..k]), *n)) }
                     "finalize_reset_write" => { let mut o = [0u8; 40]; let k = c.finalize_reset_write(&mut o); Ok(format!("{} {}", ohex(&o[..k]), *n)) }
                     _ => Err("bad kblake2s op".into()),
                 },
                 Ctx::B2_256(c) => match op {
-                    "update" => { let b = bytes(arg(a, 1)?)?; c.update(&b); Ok("-".into()) }
-                    "update_rep" => { let b = bytes(arg(a, 1)?)?; let n = usizea(arg(a, 2)?)?; for _ in 0..n { c.update(&b); } Ok("-".into()) }
+                    "update" => { let b = ubytes(arg(a, 1)?)?; c.update(&b); Ok("-".into()) }
+                    "update_rep" => { let b = ubytes(arg(a, 1)?)?; let n = usizea(arg(a, 2)?)?; for _ in 0..n { c.update(&b); } Ok("-".into()) }
                     "finalize" => Ok(ohex(&c.finalize())),
                     "finalize_reset" => Ok(ohex(&c.finalize_reset())),
                     "finalize_write" => { let mut o = [0u8; 40]; let k = c.finalize_write(&mut o); Ok(ohex(&o[..k])) }
